@@ -4,6 +4,8 @@
 //!                       [--out result.json] [--journal file] [--scale X] [--replay file]
 //! cmd: selftest | merge-hashes <files..> | C01 .. C14
 
+mod fenmon;
+mod itermon;
 mod posmon;
 mod real;
 mod report;
@@ -117,6 +119,28 @@ fn plan_for(prop: &str, a: &Args) -> Plan {
             shuffle_bias: 0,
             visit_every: 1,
         },
+        "C06" => Plan {
+            crafted_ep_stride: if thorough { 8 } else { 64 },
+            crafted_other: true,
+            evasion_cases: 1000,
+            walks: walks(150.0, 3000.0),
+            max_plies: 160,
+            tree_depth: 0,
+            tree_roots: 0,
+            shuffle_bias: 0,
+            visit_every: 1,
+        },
+        "C10" => Plan {
+            crafted_ep_stride: if thorough { 8 } else { 64 },
+            crafted_other: true,
+            evasion_cases: 1000,
+            walks: walks(200.0, 5000.0),
+            max_plies: 160,
+            tree_depth: 0,
+            tree_roots: 0,
+            shuffle_bias: 0,
+            visit_every: 1,
+        },
         _ => panic!("no plan for {prop}"),
     }
 }
@@ -139,6 +163,15 @@ fn replay_position(c: &mut Collector, o: &mut dyn Oracle, path: &str) -> i32 {
     let text = std::fs::read_to_string(path).expect("read replay file");
     let j = J::parse(&text).expect("parse replay file");
     let r = j.get("replay").cloned().unwrap_or(J::Null);
+    if let Some(h) = r.get("input_hex").and_then(|x| x.as_str()) {
+        let bytes = fenmon::unhex(h);
+        fenmon::judge_bytes(c, &bytes, r.get("origin").and_then(|x| x.as_str()).unwrap_or("replay"));
+        println!("replayed parse of {} bytes: {} violation(s)", bytes.len(), c.violation_total);
+        for v in &c.violations {
+            println!("VIOLATION property={} replay={path}\n  {}/{}: {}", c.prop, v.kind, v.signature, v.detail);
+        }
+        return if c.violation_total > 0 { 1 } else { 0 };
+    }
     let fen = r.get("root_fen").or(r.get("fen")).and_then(|x| x.as_str()).map(|s| s.to_string());
     let Some(fen) = fen else {
         println!("replay file has no root_fen/fen; recorded detail:\n{}", j.get("detail").and_then(|d| d.as_str()).unwrap_or(""));
@@ -180,7 +213,7 @@ fn main() {
         "merge-hashes" => {
             println!("{}", report::merge_hash_files(&a.rest));
         }
-        "C01" | "C02" | "C03" | "C04" | "C05" => {
+        "C01" | "C02" | "C03" | "C04" | "C05" | "C06" | "C10" => {
             // the model must agree with published numbers before it is allowed to judge anything
             if let Err(e) = refmodel::self_test(false) {
                 println!("INCONCLUSIVE: reference model self-test failed: {e}");
@@ -193,12 +226,22 @@ fn main() {
                 "C02" => Box::new(posmon::C02 { nodes: 0 }),
                 "C03" => Box::new(posmon::C03 { nodes: 0 }),
                 "C04" => Box::new(posmon::C04 { nodes: 0, seen: Default::default(), key_table_done: false }),
-                _ => Box::new(posmon::C05 { nodes: 0, std_done: false }),
+                "C05" => Box::new(posmon::C05 { nodes: 0, std_done: false }),
+                "C10" => Box::new(itermon::C10 { nodes: 0, histories_per_node: if a.tier == "thorough" { 12 } else { 6 } }),
+                _ => Box::new(fenmon::C06 { nodes: 0, mutations_per_node: if a.tier == "thorough" { 24 } else { 10 } }),
             };
             if let Some(rp) = &a.replay {
                 std::process::exit(replay_position(&mut c, o.as_mut(), rp));
             }
             posmon::run_plan(&mut c, o.as_mut(), a.seed, a.shard, a.nshards, &plan);
+            if a.cmd == "C06" {
+                let mut rng = refmodel::rng::Rng::new(refmodel::rng::mix3(a.seed, a.shard, 0xB17E5));
+                let n = (if a.tier == "thorough" { 2_000_000.0 } else { 150_000.0 } * a.scale) as u64;
+                fenmon::random_bytes_stratum(&mut c, &mut rng, n);
+                for _ in 0..n / 20 {
+                    fenmon::builder_fuzz(&mut c, &mut rng, None);
+                }
+            }
             finish(&c, &a, J::Null);
         }
         other => {
